@@ -76,11 +76,13 @@ fn main() {
     let src = std::fs::read_to_string(&a[1]).expect("cannot read input");
     let file: syn::File = syn::parse_str(&src).expect("cannot parse input");
     let mut out = vec![];
-    for attr in &file.attrs {
-        println!("{}", attr.to_token_stream());
+    let structs = a.iter().any(|x| x == "--structs");
+    if !structs {
+        for attr in &file.attrs {
+            println!("{}", attr.to_token_stream());
+        }
     }
     expand_items(file.items, &mut out);
-    let structs = a.iter().any(|x| x == "--structs");
     if structs {
         let mut ts = proc_macro2::TokenStream::new();
         for t in out {
